@@ -248,7 +248,106 @@ template <class T> static bool exec_buf_t(Ctx &c, const Op &op) {
     }
 }
 
+// reference transcoding helpers for B_CONVERT
+static bool model_scalars(const std::string &m, Scalars &out) { return decode_utf8_strict(m, out); }
+static bool model_scalars(const std::u16string &m, Scalars &out) {
+    out.clear();
+    for (size_t i = 0; i < m.size(); i++) {
+        char32_t ch = m[i];
+        if (ch >= 0xD800 && ch <= 0xDBFF) { if (i + 1 >= m.size() || m[i + 1] < 0xDC00 || m[i + 1] > 0xDFFF) return false; ch = 0x10000 + ((ch & 0x3FF) << 10) + (m[i + 1] & 0x3FF); ++i; }
+        else if (ch >= 0xDC00 && ch <= 0xDFFF) return false;
+        out += ch;
+    }
+    return true;
+}
+static bool model_scalars(const std::u32string &m, Scalars &out) { out = m; for (char32_t ch : m) if (ch > 0x10FFFF || (ch >= 0xD800 && ch <= 0xDFFF)) return false; return true; }
+static bool model_scalars(const std::wstring &m, Scalars &out) { return model_scalars(std::u32string(m.begin(), m.end()), out); }
+
+template <class Src> static bool exec_convert(Ctx &c, const Op &op) {
+    // free conversion functions: source = a pool buffer of element type Src, result = a new pool buffer
+    auto &v = c.bufs<Src>();
+    BufObj<Src> *src = nullptr;
+    if constexpr (std::is_same<Src, char>::value) src = pick_b8_text(c, op.a); else src = pick(v, op.a);
+    if (!src) { c.skipped = true; return true; }
+    unsigned target = op.b % 5;             // 0 utf8, 1 wchar, 2 utf16, 3 utf32, 4 latin-1
+    bool ptr_form = op.c & 1; unsigned modebits = (op.c >> 1) & 3; bool as_latin1 = std::is_same<Src, char>::value && ((op.c >> 3) & 1); bool subst_oor = (op.c >> 4) & 1;
+    if (std::is_same<Src, char>::value && !as_latin1 && target == 0) target = 2;            // utf8 -> utf8 does not exist
+    if (std::is_same<Src, char16_t>::value && target == 2) target = 0;
+    if (std::is_same<Src, char32_t>::value && target == 3) target = 0;
+    if (std::is_same<Src, wchar_t>::value && target == 1) target = 0;
+    if (as_latin1 && target == 4) target = 0;
+    ST::utf_validation_t mode = modebits == 1 ? ST::substitute_invalid : modebits == 2 ? ST::assume_valid : ST::check_validity;
+    const bool dflt = modebits == 0;
+    Scalars sc; bool wf;
+    if (as_latin1) { sc.clear(); for (unsigned char ch : std::string((const char *)src->model.data(), src->model.size())) sc += ch; wf = true; }
+    else wf = model_scalars(src->model, sc);
+    bool lat_ok = true; for (char32_t ch : sc) if (ch >= 0x100) lat_ok = false;
+    char e[96]; std::snprintf(e, sizeof e, "to=%u,src=%c,%s%s%s", target, cl(src), ptr_form ? "ptr" : "buf", as_latin1 ? ",latin1" : "", wf ? "" : ",invalid");
+    note_sig<Src>(c, op, e);
+    c.budget_bytes = src->model.size() * sizeof(Src) * 6;
+    as_const(src);
+    const Src *p = src->p()->data(); size_t n = src->p()->size();
+    const auto &sb = *src->p();
+    unsigned allowed = wf ? 0 : bit(EX_UNICODE);
+    if (target == 4 && !subst_oor && !lat_ok) allowed |= bit(EX_UNICODE);
+    void *mem = nullptr; ExcKind ex;
+#define CONV(T, CALL_PTR, CALL_BUF, SETMODEL)                                                                                      \
+    { make_room<T>(c, std::is_same<T, Src>::value ? (const ObjBase *)src : nullptr); mem = obj_alloc(sizeof(ST::buffer<T>));         \
+      ex = run_sut(c, op, [&] { if (ptr_form) new (mem) ST::buffer<T>(CALL_PTR); else new (mem) ST::buffer<T>(CALL_BUF); });       \
+      if (settle(c, op, ex, allowed)) { auto *o = add_buf<T>(c, mem); o->role = ROLE_NEW; o->parent = src->serial; if (wf) { SETMODEL; } else o->st = M_ADOPT; }  \
+      else obj_free(mem); }
+    if constexpr (std::is_same<Src, char>::value) {
+        if (as_latin1) {
+            switch (target) {
+            case 0: CONV(char, ST::latin_1_to_utf8(p, n), ST::latin_1_to_utf8(sb), enc_utf8(sc, o->model)) break;
+            case 1: CONV(wchar_t, ST::latin_1_to_wchar(p, n), ST::latin_1_to_wchar(sb), o->model.assign(sc.begin(), sc.end())) break;
+            case 2: CONV(char16_t, ST::latin_1_to_utf16(p, n), ST::latin_1_to_utf16(sb), enc_utf16(sc, o->model)) break;
+            default: CONV(char32_t, ST::latin_1_to_utf32(p, n), ST::latin_1_to_utf32(sb), o->model = sc) break;
+            }
+        } else {
+            switch (target) {
+            case 1: CONV(wchar_t, dflt ? ST::utf8_to_wchar(p, n) : ST::utf8_to_wchar(p, n, mode), dflt ? ST::utf8_to_wchar(sb) : ST::utf8_to_wchar(sb, mode), o->model.assign(sc.begin(), sc.end())) break;
+            case 2: CONV(char16_t, dflt ? ST::utf8_to_utf16(p, n) : ST::utf8_to_utf16(p, n, mode), dflt ? ST::utf8_to_utf16(sb) : ST::utf8_to_utf16(sb, mode), enc_utf16(sc, o->model)) break;
+            case 3: CONV(char32_t, dflt ? ST::utf8_to_utf32(p, n) : ST::utf8_to_utf32(p, n, mode), dflt ? ST::utf8_to_utf32(sb) : ST::utf8_to_utf32(sb, mode), o->model = sc) break;
+            default: CONV(char, ST::utf8_to_latin_1(p, n, mode, subst_oor), ST::utf8_to_latin_1(sb, mode, subst_oor), { o->model.clear(); for (char32_t ch : sc) o->model += ch < 0x100 ? (char)ch : '?'; }) break;
+            }
+        }
+    } else if constexpr (std::is_same<Src, char16_t>::value) {
+        switch (target) {
+        case 0: CONV(char, dflt ? ST::utf16_to_utf8(p, n) : ST::utf16_to_utf8(p, n, mode), dflt ? ST::utf16_to_utf8(sb) : ST::utf16_to_utf8(sb, mode), enc_utf8(sc, o->model)) break;
+        case 1: CONV(wchar_t, dflt ? ST::utf16_to_wchar(p, n) : ST::utf16_to_wchar(p, n, mode), dflt ? ST::utf16_to_wchar(sb) : ST::utf16_to_wchar(sb, mode), o->model.assign(sc.begin(), sc.end())) break;
+        case 3: CONV(char32_t, dflt ? ST::utf16_to_utf32(p, n) : ST::utf16_to_utf32(p, n, mode), dflt ? ST::utf16_to_utf32(sb) : ST::utf16_to_utf32(sb, mode), o->model = sc) break;
+        default: CONV(char, ST::utf16_to_latin_1(p, n, mode, subst_oor), ST::utf16_to_latin_1(sb, mode, subst_oor), { o->model.clear(); for (char32_t ch : sc) o->model += ch < 0x100 ? (char)ch : '?'; }) break;
+        }
+    } else if constexpr (std::is_same<Src, char32_t>::value) {
+        switch (target) {
+        case 0: CONV(char, dflt ? ST::utf32_to_utf8(p, n) : ST::utf32_to_utf8(p, n, mode), dflt ? ST::utf32_to_utf8(sb) : ST::utf32_to_utf8(sb, mode), enc_utf8(sc, o->model)) break;
+        case 1: CONV(wchar_t, dflt ? ST::utf32_to_wchar(p, n) : ST::utf32_to_wchar(p, n, mode), dflt ? ST::utf32_to_wchar(sb) : ST::utf32_to_wchar(sb, mode), o->model.assign(sc.begin(), sc.end())) break;
+        case 2: CONV(char16_t, dflt ? ST::utf32_to_utf16(p, n) : ST::utf32_to_utf16(p, n, mode), dflt ? ST::utf32_to_utf16(sb) : ST::utf32_to_utf16(sb, mode), enc_utf16(sc, o->model)) break;
+        default: CONV(char, ST::utf32_to_latin_1(p, n, mode, subst_oor), ST::utf32_to_latin_1(sb, mode, subst_oor), { o->model.clear(); for (char32_t ch : sc) o->model += ch < 0x100 ? (char)ch : '?'; }) break;
+        }
+    } else {
+        switch (target) {
+        case 0: CONV(char, dflt ? ST::wchar_to_utf8(p, n) : ST::wchar_to_utf8(p, n, mode), dflt ? ST::wchar_to_utf8(sb) : ST::wchar_to_utf8(sb, mode), enc_utf8(sc, o->model)) break;
+        case 2: CONV(char16_t, dflt ? ST::wchar_to_utf16(p, n) : ST::wchar_to_utf16(p, n, mode), dflt ? ST::wchar_to_utf16(sb) : ST::wchar_to_utf16(sb, mode), enc_utf16(sc, o->model)) break;
+        case 3: CONV(char32_t, dflt ? ST::wchar_to_utf32(p, n) : ST::wchar_to_utf32(p, n, mode), dflt ? ST::wchar_to_utf32(sb) : ST::wchar_to_utf32(sb, mode), o->model = sc) break;
+        default: CONV(char, ST::wchar_to_latin_1(p, n, mode, subst_oor), ST::wchar_to_latin_1(sb, mode, subst_oor), { o->model.clear(); for (char32_t ch : sc) o->model += ch < 0x100 ? (char)ch : '?'; }) break;
+        }
+    }
+#undef CONV
+    if (ex != EX_NONE && ex != EX_BAD_ALLOC && src->model.size() >= (size_t)ET<Src>::limit) probe(c, PR_THROW_WITH_HEAP_TARGET);
+    return true;
+}
+
 bool exec_buf(Ctx &c, const Op &op) {
+    if (op.kind == B_CONVERT) {
+        switch (op.t & 3) {
+        case 0: return exec_convert<char>(c, op);
+        case 1: return exec_convert<wchar_t>(c, op);
+        case 2: return exec_convert<char16_t>(c, op);
+        default: return exec_convert<char32_t>(c, op);
+        }
+    }
     if (META[op.kind].fam > BD) return false;
     switch (op.t & 3) {
     case 0: return exec_buf_t<char>(c, op);
